@@ -217,6 +217,8 @@ def c12(tier):
     rep = Report("C12", tier, LEVEL)
     rep.assumptions += ["keys are whole bytes, 1-3 (4) bytes long; hash = identity in the model; database is a dict"]
     R = "harness.binary:replay_line"
+    # with Checkout (trie.root_hash / trie.root_node pointed back at any earlier root; forked histories)
+    run_s2c(rep, "MC_Binary", bin_cfg(spec="SpecCL4" if tier == "quick" else "SpecCL5", view="ViewFull"), R)
     if tier == "quick":
         run_s2c(rep, "MC_Binary", bin_cfg(spec="SpecL5", view="ViewFull"), R)
         run_s2c(rep, "MC_Binary", bin_cfg(spec="Spec", keys="KFull", look="LFull", vals="V3", maxlive=5,
